@@ -44,6 +44,10 @@ def r1_step_wrappers(ctx, cfg='A'):
                     seq.append(('swap', e))
                 elif e[0] == 'c' and e[1].name == RT + '::dispatch_all':
                     seq.append(('run', e))
+                elif e[0] == 'c' and e[1].name == RT + '::dispatch_event' and f.loops_containing(e[1].b):
+                    # dispatch_all inlined: `while !self.dispatch_event() {}` — one 'run' per loop, however often the path iterates
+                    if not (seq and seq[-1][0] == 'run' and seq[-1][1][1].b == e[1].b):
+                        seq.append(('run', e))
                 elif e[0] == 'w' and e[2] == 'limit':
                     seq.append(('restore', e))
             kinds = [k for k, _ in seq]
@@ -58,12 +62,12 @@ def r1_step_wrappers(ctx, cfg='A'):
                 if good and var == 'EventCount':
                     v = peel(lim[2][0])
                     v = v[1] if (v[0] == 'field' and v[1][0] == 'bin') else v
-                    good = v[0] == 'bin' and v[1].startswith('Add') and any(x[0] == 'call' and x[1] == RT + '::num_events_dispatched' for x in walk(v)) \
-                        and any(x[0] == 'arg' and x[2] == 'n' for x in walk(v))
+                    good = v[0] == 'bin' and v[1].startswith('Add') and any((x[0] == 'call' and x[1] == RT + '::num_events_dispatched') or (x[0] == 'field' and x[2] == 'itr') for x in walk(v)) \
+                        and any(x[0] == 'arg' and x[1] == 2 for x in walk(v))
                     detail['count_limit'] = show(v)
                 elif good:
                     v = peel(lim[2][0])
-                    good = v[0] == 'arg' and v[2] == 't'
+                    good = v[0] == 'arg' and v[1] == 2
                     detail['time_limit'] = show(v)
                 # restored value is the swapped-out one (the local that was swapped)
                 rv = seq[2][1][4]
@@ -79,6 +83,10 @@ def r1_step_wrappers(ctx, cfg='A'):
     if h:
         de = h.calls_to(RT + '::dispatch_event')
         ok = len(de) == 1 and bool(h.loops_containing(de[0].b))
+        if not de:
+            from .dispatch import dispatch_iterations
+            g_, its_, form_ = dispatch_iterations(ctx, cfg)
+            ok = form_ == 'loop' and g_ is h and any(not i.stops for i in its_) and any(i.stops for i in its_)
         ctx.check(ok, 'dispatch-all-loop', 'dispatch_all repeats dispatch_event until it reports the end', h.where())
 
 
@@ -104,16 +112,16 @@ def _bound_role(P, cfg):
 def r2_limit_path(ctx, cfg='A'):
     ctx.set_rule('C10.R2', cfg)
     P = ctx.progs[cfg]
-    f = P.fns.get(RT + '::dispatch_event')
+    from .dispatch import dispatch_iterations
+    f, its, form = dispatch_iterations(ctx, cfg)
     if not f:
         ctx.violation('anchor:dispatch_event', 'unresolved-anchor'); return
     ctx.touch(f)
     addf, bound = _bound_role(P, cfg)
     n = 0
-    for path, outcome, decs in fn_paths(ctx, f):
-        if outcome != 'return':
-            continue
-        effs = path_effects(f, path)
+    for it in its:
+        path, decs = it.path, it.decs
+        effs = it.effs
         handled = any(e[0] == 'c' and e[1].callee == 'des::runtime::event::types::Event::handle' for e in effs)
         fetched = [e for e in effs if e[0] == 'c' and e[1].name == _fes(cfg) + '::fetch_next']
         if handled or not fetched:
@@ -145,7 +153,7 @@ def r2_limit_path(ctx, cfg='A'):
         if not fetched:
             continue
         if a_bad or b_bad:
-            ctx.violation('limit-path-not-inverse:%s' % f.key,
+            ctx.violation('limit-path-not-inverse:%s' % (RT + '::dispatch_event'),
                           'dispatch_event decides the limit after a destructive fetch and puts the event back with the generic add: '
                           + ('(a) the fetch advanced the event set\'s lower bound (%s written in %s) and the put-back does not roll it back, so an event scheduled while paused at a time >= the reported time but < the pending event is rejected; ' % (bound, ', '.join(short(k) for k in bound_writers) ) if a_bad else '')
                           + ('(b) a same-instant event is taken from the %s of the FIFO and re-inserted at the %s, so a step that cuts a same-instant group reorders it' % ('/'.join(sorted(pop_end)), '/'.join(sorted(push_end))) if b_bad else ''),
@@ -160,14 +168,14 @@ def r2_limit_path(ctx, cfg='A'):
 def r3_paused_state(ctx, cfg='A'):
     ctx.set_rule('C10.R3', cfg)
     P = ctx.progs[cfg]
-    f = P.fns.get(RT + '::dispatch_event')
+    from .dispatch import dispatch_iterations
+    f, its, form = dispatch_iterations(ctx, cfg)
     if not f:
         return
     n = 0
-    for path, outcome, decs in fn_paths(ctx, f):
-        if outcome != 'return':
-            continue
-        effs = path_effects(f, path)
+    for it in its:
+        path, decs = it.path, it.decs
+        effs = it.effs
         handled = any(e[0] == 'c' and e[1].callee == 'des::runtime::event::types::Event::handle' for e in effs)
         if handled:
             continue
@@ -177,8 +185,7 @@ def r3_paused_state(ctx, cfg='A'):
         ctx.check(not clock and not counter, 'paused-state-untouched',
                   'a dispatch_event call that dispatches nothing changes neither the clock nor the dispatch counter (a paused runtime reports the last dispatched event)',
                   f.where_path(path), {'clock_written': clock, 'counter_written': counter})
-        ret = path_ret(f, path)
-        ctx.check(path_truth(f, path, decs, ret) is True, 'stop-signalled', 'a dispatch_event call that dispatches nothing tells dispatch_all to stop', f.where_path(path), show(ret) if ret else None)
+        ctx.check(it.stops is True, 'stop-signalled', 'a dispatch step that dispatches nothing ends the dispatch loop', f.where_path(path), {'form': form})
     ctx.floor('non-dispatching paths of dispatch_event', n, 2)
 
 
@@ -186,18 +193,18 @@ def r4_stop_decision(ctx, cfg='A'):
     """whether dispatch_event stops or dispatches depends on limit.applies(..) alone (besides the empty test)"""
     ctx.set_rule('C10.R4', cfg)
     P = ctx.progs[cfg]
-    f = P.fns.get(RT + '::dispatch_event')
+    from .dispatch import dispatch_iterations
+    f, its, form = dispatch_iterations(ctx, cfg)
     if not f:
         return
     n = 0
-    for path, outcome, decs in fn_paths(ctx, f):
-        if outcome != 'return':
-            continue
-        effs = path_effects(f, path)
+    for it in its:
+        path, decs = it.path, it.decs
+        effs = it.effs
         if not any(e[0] == 'c' and e[1].name == _fes(cfg) + '::fetch_next' for e in effs):
             continue
         n += 1
-        atoms = [a for _, a in path_atoms(f, path, decs)]
+        atoms = it.atoms
         handled = any(e[0] == 'c' and e[1].callee == 'des::runtime::event::types::Event::handle' for e in effs)
         lim = [a for a in atoms if a[0] == 'bool' and a[1][0] == 'call' and a[1][1] == LIM + '::applies']
         empt = [a for a in atoms if a[0] == 'bool' and a[1][0] == 'call' and a[1][1].endswith('::is_empty')]
